@@ -32,6 +32,7 @@ func rulesC06(c *Ctx) {
 	ruleStreamForwards(c, "MODIFY-FORWARDS", "Modify", "ModifyResponse")
 	ruleOpResultID(c)
 	rulePendingWriters(c)
+	ruleStateWriters(c, writersRIB[:1])  // the pending set
 	ribFamily(c, famSel{heldOnly: true}) // an AddXXX says "not done, no error" (= hold the operation) only where the gate said not yet
 }
 
